@@ -6,10 +6,12 @@ SendersAB == {"a", "b"}
 InitNonceAB == "a" :> 0 @@ "b" :> 1
 
 \* quick: a: nonces 0..2, b: nonces 1..2 (account nonce of b is 1), gas prices 1 and 2, one Ontology transaction
-EvmQ == {Tx("a", n, gp, 0) : n \in 0..2, gp \in {1, 2}} \cup {Tx("b", n, gp, 0) : n \in 1..2, gp \in {1, 2}}
+EvmQ == {Tx("a", n, gp, 0) : n \in 0..2, gp \in {1, 2}} \cup {Tx("a", 0, 1, 1)} \cup {Tx("b", n, gp, 0) : n \in 1..2, gp \in {1, 2}}
 OntQ == {Tx("x", 0, 2, 0)}
 \* small: exercises every action with a tiny universe (used for the exhaustive edge cover of the quick tier)
 EvmS == {Tx("a", n, gp, 0) : n \in 0..1, gp \in {1, 2}} \cup {Tx("b", 1, 1, 0), Tx("b", 2, 1, 0)}
+\* deep: one sender, two competing transactions for nonce 1; small enough for the COMPLETE reachable graph (no depth bound)
+EvmD == {Tx("a", 0, 1, 0), Tx("a", 1, 1, 0), Tx("a", 1, 2, 0)}
 \* thorough: gas prices around the 1% replacement threshold, variants (equal price, different hash), two Ontology transactions
 EvmT == {Tx("a", n, gp, v) : n \in 0..2, gp \in {100, 101, 102}, v \in {0}} \cup {Tx("a", 0, 100, 1)}
         \cup {Tx("b", n, gp, 0) : n \in 1..3, gp \in {100, 102}}
